@@ -495,7 +495,7 @@ DIRS = ["", "sub", "inc", "inc2", "sub/deep"]
 
 
 def gen_graph(rng):
-    kind = rng.pick(["chain", "diamond", "cycle", "ipath", "shadow", "random", "random", "deep"])
+    kind = rng.pick(["chain", "diamond", "cycle", "ipath", "shadow", "random", "random", "deep", "wide"])
     files = {}
     ipath = rng.pick([[], ["inc"], ["inc", "inc2"], ["inc2", "inc"]])
     names = [b"a.cfg", b"b.cfg", b"c.cfg", b"d.cfg"]
@@ -535,6 +535,13 @@ def gen_graph(rng):
         files["inc/x.cfg"] = body("inc/x.cfg", [])
         if rng.chance(1, 2):
             files["x.cfg"] = body("x.cfg", [])
+    elif kind == "wide":
+        # many includes side by side, little nesting: the limit is on the nesting depth, not on how many files were read
+        n = rng.pick([9, 10, 11, 14, 25])
+        files["main.cfg"] = body("main.cfg", [b"w%d.cfg" % (i % 5) for i in range(n)])
+        for i in range(5):
+            files["w%d.cfg" % i] = body("w%d.cfg" % i, [b"leaf.cfg"] if i == 0 and rng.chance(1, 2) else [])
+        files["leaf.cfg"] = body("leaf.cfg", [])
     elif kind == "deep":
         d = rng.pick([8, 9, 10, 11])
         for i in range(d + 1):
